@@ -332,6 +332,7 @@ func (p *Proxy) handle(conn net.Conn) {
 	}
 	p.addClient(cl)
 	cl.conn = proxycore.NewConn(conn, cl)
+	cl.conn.SetWriteTimeout(clientWriteTimeout)
 	cl.conn.Start()
 }
 
@@ -387,6 +388,10 @@ func (p *Proxy) newQueryPlan() proxycore.QueryPlan {
 var (
 	schemaVersion, _ = primitive.ParseUuid("4f2b29e6-59b5-4e2d-8fd6-01e32e67f0d7")
 )
+
+// clientWriteTimeout is how long a client can go without reading its responses before it's disconnected. Responses are written
+// to clients by the read loops of the (shared) backend connections, so a client that never reads must not be waited for forever.
+const clientWriteTimeout = 10 * time.Second
 
 func (p *Proxy) buildNodes() (err error) {
 	numPeers := len(p.config.Peers)
